@@ -14,8 +14,8 @@ NSS = ['/', '/x']
 def leaves(seed):
     strs = common.rotate(['', '1-', 'a"b\\', '\U0001F600', '\u0000', ','],
                          seed)
-    return [None, True, 0, -7, 2 ** 63 - 1, 1.5, -0.0, strs[0], strs[1],
-            b'', b'\x00\xff']
+    return [None, True, 0, -7, 2 ** 63 - 1, 0.1, 1e300, -0.0, strs[0],
+            strs[1], b'', b'\x00\xff']
 
 
 def payloads(N, seed):
@@ -319,6 +319,21 @@ def run_case(w, st, sids, case):
         want = {t: [('echo',)] for t in 'ABC'}
         if not teq(got, want):
             bad('callback-args', f'callbacks got {got!r}, expected {want!r}')
+        # the same with the acknowledgements arriving out of order (the
+        # second handler finished first)
+        got.clear()
+        w.hold[back] = True
+        emit('A')
+        emit('B')
+        emit('C')
+        w.settle()
+        w.release_at(back, 1)
+        w.release_at(back, 0)
+        w.hold[back] = False
+        w.release(back)
+        if not teq(got, want):
+            bad('callback-args', f'out-of-order acknowledgements: callbacks '
+                f'got {got!r}, expected {want!r}')
     elif kind == 'c2s-timeout':
         # an event nobody is responsible for is not acknowledged
         r = w.client('call', 'nobody', data, namespace=ns, timeout=5)
